@@ -88,6 +88,15 @@ mut('c09_first_sample_skipped', 'C09', 'utils/calibration_utils.py',
     '  if not qsv:\n    return {k: v * (1.0 - smoothing_factor) for k, v in new_qsv.items()}\n\n  updated_qsv = {}\n  updated_qsv["min"] = _update_moving_average(',
     'first sample folded as if the old value were zero')
 
+mut('c09_smoothing_0949', 'C09', 'utils/calibration_utils.py',
+    'qsv: qtyping.QSV, new_qsv: qtyping.QSV, smoothing_factor: float = 0.95\n',
+    'qsv: qtyping.QSV, new_qsv: qtyping.QSV, smoothing_factor: float = 0.949\n',
+    'smoothing weight off by 0.001 (margin test for the EMA tolerance)')
+mut('c09_max_uses_abs', 'C09', 'algorithms/uniform_quantize/naive_min_max_quantize.py',
+    '        "max": np.max(tensor_content, axis=None, keepdims=True),\n',
+    '        "max": np.max(np.abs(tensor_content), axis=None, keepdims=True),\n',
+    'per-sample max taken over |x| (differs only for tensors whose largest magnitude is negative)')
+
 # ------------------------------------------------------------------ C11
 mut('c11_match_not_search', 'C11', 'recipe_manager.py',
     'if re.search(scope_regex, scope_name):', 'if re.match(scope_regex, scope_name):')
